@@ -1,6 +1,10 @@
 import VermouthModel.Proto
 import VermouthModel.C16
+import VermouthModel.C16_Format
+import VermouthProps.C16Total
 import Generated.C16Layout
+import VermouthModel.C16_Full
+import Generated.C16LayoutX
 open Proto C16
 
 /-
@@ -11,6 +15,18 @@ Protocol of driver_c16 (layouts come from Generated.C16Layout):
   growrite <system>                        -> ok [ xLINE ... ]   (atom lines only)
   growritep <precision> <system>           -> ok [ xLINE ... ]   (write_gro(precision=...))
   groread  [ xEXCL ... ] <ignh> [ xLINE ... ] -> ok [ atom ... ]            | err <name>
+
+  pdbtrunc <system>                        -> ok [ mol ... ] | skip      (closed form `truncAtomOf` of the totality
+  grotrunc <system>                        -> ok [ atom ... ] | skip      theorems, when `atomKeepB` / `groKeepB` hold)
+  pdbwritex <conect> <omit_charges> <nan_missing_pos> <systemx>  -> ok [ xLINE ... ] | err <name>
+  pdbreadx [ xEXCL ... ] <ignh> <modelidx> [ xLINE ... ] -> ok [ [ [ atomx ... ] [ [ i j ] ... ] box ] ... ] | err <name>
+                                              (complete reader: MODEL, CRYST1, nan, charges, merging CONECT)
+  growritex <precision> xTITLE [ boxval ... ] <systemx> -> ok [ xLINE ... ]  (whole file) | err <name>
+  groreadx [ xEXCL ... ] <ignh> [ xLINE ... ] -> ok [ gatomx ... ] [ box ... ] | err <name>
+  systemx: atoms carry three more entries: haspos 0|1, velocity - | [ vx vy vz ] (1e-4), charge;
+  boxval = [ 0 int ] | [ 1 k p ]  (k / 10^p)
+  fmtfield xSPEC <val>                     -> ok xTEXT | err valueerror|notimplemented|unmodelled
+                                              (TruncFormatter.format_field; val = [ 0 int ] | [ 1 xSTR ] | [ 2 scaled ])
 
   system = [ mol ... ];  mol = [ [ atom ... ] [ [ u v ] ... ] ]
   atom   = [ key atomid name altloc resname chain resid icode x y z occ temp element ]  ('-' = None)
@@ -77,6 +93,77 @@ def dedupSorted : List (Nat × Nat × Nat) → List (Nat × Nat × Nat)
 def canonBonds (bs : List (Nat × Nat × Nat)) : List (Nat × Nat × Nat) :=
   dedupSorted ((bs.map fun (m, i, j) => (m, min i j, max i j)).mergeSort bondLe)
 
+def atomXOf (t : Tok) : Option AtomX := do
+  let l ← t.list?
+  match l.drop 14 with
+  | [hp, vel, ch] =>
+      let a ← atomOf (Tok.list (l.take 14))
+      let v ← match vel with
+        | Tok.none => some none
+        | Tok.list [a, b, c] => do pure (some (← a.int?, ← b.int?, ← c.int?))
+        | _ => none
+      pure { atom := a, hasPos := (← hp.nat?) != 0, vel := v, charge := ← ch.int? }
+  | _ => none
+
+def molXOf (t : Tok) : Option MolX := do
+  match ← t.list? with
+  | [as, es] => pure { atoms := ← (← as.list?).mapM atomXOf, edges := ← (← es.list?).mapM edgeOf }
+  | _ => none
+
+def sysXOf (t : Tok) : Option (List MolX) := do (← t.list?).mapM molXOf
+
+def boxValOf (t : Tok) : Option BoxVal := do
+  match ← t.list? with
+  | [Tok.int 0, i] => pure (.int (← i.int?))
+  | [Tok.int 1, k, p] => pure (.dec (← k.int?) (← p.nat?))
+  | _ => none
+
+def encDec3 (p : Nat) (v : Dec × Dec × Dec) : Option String := do
+  pure (encList [← encScaled p v.1, ← encScaled p v.2.1, ← encScaled p v.2.2])
+
+def encPAtomX (a : PAtomX) : Option String := do
+  let x ← if a.nan.1 then some "-" else encScaled 3 a.atom.x
+  let y ← if a.nan.2.1 then some "-" else encScaled 3 a.atom.y
+  let z ← if a.nan.2.2 then some "-" else encScaled 3 a.atom.z
+  let o ← encScaled 2 a.atom.occ
+  let t ← encScaled 2 a.atom.temp
+  let c ← encScaled 2 a.charge
+  pure (encList [encInt a.atom.atomid, encChars a.atom.atomname, encChars a.atom.altloc, encChars a.atom.resname,
+                 encChars a.atom.chain, encInt a.atom.resid, encChars a.atom.icode, x, y, z, o, t,
+                 encChars a.atom.element, c])
+
+def pairLe (a b : Nat × Nat) : Bool := a.1 < b.1 || (a.1 == b.1 && a.2 ≤ b.2)
+
+def dedupPairs : List (Nat × Nat) → List (Nat × Nat)
+  | a :: b :: r => if a = b then dedupPairs (b :: r) else a :: dedupPairs (b :: r)
+  | l => l
+
+def encMolR (m : MolR) : Option String := do
+  let as ← m.atoms.mapM encPAtomX
+  let es := dedupPairs ((m.edges.map fun (i, j) => (min i j, max i j)).mergeSort pairLe)
+  let box ← match m.box with
+    | none => some "-"
+    | some b => encDec3 4 b
+  pure (encList [encList as, encList (es.map fun (i, j) => encList [encNat i, encNat j]), box])
+
+def encGAtomX (a : GAtomX) : Option String := do
+  let x ← encScaled 6 a.atom.x
+  let y ← encScaled 6 a.atom.y
+  let z ← encScaled 6 a.atom.z
+  let v ← match a.vel with
+    | none => some "-"
+    | some v => encDec3 6 v
+  pure (encList [encInt a.atom.resid, encChars a.atom.resname, encChars a.atom.atomname, encInt a.atom.atomid, x, y, z,
+                 encChars [a.atom.element], v])
+
+def valOf (t : Tok) : Option Val := do
+  match ← t.list? with
+  | [Tok.int 0, i] => pure (.int (← i.int?))
+  | [Tok.int 1, s] => pure (.str (← s.str?).toList)
+  | [Tok.int 2, k] => pure (.fix (← k.int?))
+  | [Tok.int 3] => pure .nan
+  | _ => none
+
 def handle (_ : Unit) (toks : List Tok) : Unit × String :=
   let r : Option String :=
     match toks with
@@ -117,6 +204,64 @@ def handle (_ : Unit) (toks : List Tok) : Unit × String :=
           match atoms.mapM encGAtom with
           | none => pure "err scale"
           | some as => pure ("ok " ++ encList as)
+    | [Tok.str "pdbtrunc", s] => do
+        let sys ← sysOf s
+        if allSysB (atomKeepB []) 1 sys then
+          match (expectedMols truncAtomOf 1 sys).mapM (fun m => (m.mapM encPAtom).map encList) with
+          | none => pure "err scale"
+          | some ms => pure ("ok " ++ encList ms)
+        else pure "skip"
+    | [Tok.str "grotrunc", s] => do
+        let sys ← sysOf s
+        let ps := groPairs 1 sys
+        if !ps.isEmpty && ps.all (fun p => groKeepB [] p.2) then
+          match (ps.map fun p => truncGAtomOf p.1 p.2).mapM encGAtom with
+          | none => pure "err scale"
+          | some as => pure ("ok " ++ encList as)
+        else pure "skip"
+    | [Tok.str "pdbwritex", c, oc, nm, s] => do
+        let conect ← c.nat?
+        let omitCh ← oc.nat?
+        let nanm ← nm.nat?
+        let sys ← sysXOf s
+        match writePdbX Layout.pdb (conect != 0) (omitCh != 0) (nanm != 0) sys with
+        | .ok ls => pure ("ok " ++ encLines ls)
+        | .error e => pure (errStr e)
+    | [Tok.str "pdbreadx", ex, ih, mi, ls] => do
+        let excl ← linesOf ex
+        let ignh ← ih.nat?
+        let midx ← mi.int?
+        let lines ← linesOf ls
+        match readPdbX Layout.pdbX excl (ignh != 0) midx lines with
+        | .error e => pure (errStr e)
+        | .ok mols =>
+          match mols.mapM encMolR with
+          | none => pure "err scale"
+          | some ms => pure ("ok " ++ encList ms)
+    | [Tok.str "growritex", pr, ti, bx, s] => do
+        let p ← pr.nat?
+        let title ← ti.str?
+        let box ← (← bx.list?).mapM boxValOf
+        let sys ← sysXOf s
+        match writeGroX Layout.groFmts Layout.groVelFmts p title.toList box sys with
+        | .ok ls => pure ("ok " ++ encLines ls)
+        | .error e => pure (errStr e)
+    | [Tok.str "groreadx", ex, ih, ls] => do
+        let excl ← linesOf ex
+        let ignh ← ih.nat?
+        let lines ← linesOf ls
+        match readGroX Layout.gro excl (ignh != 0) lines with
+        | .error e => pure (errStr e)
+        | .ok (atoms, box) =>
+          match atoms.mapM encGAtomX, box.mapM (encScaled 6) with
+          | some as, some bs => pure ("ok " ++ encList as ++ " " ++ encList bs)
+          | _, _ => pure "err scale"
+    | [Tok.str "fmtfield", sp, v] => do
+        let spec ← sp.str?
+        let val ← valOf v
+        match formatField spec.toList val with
+        | .ok r => pure ("ok " ++ encChars r)
+        | .error e => pure ("err " ++ e.toString)
     | _ => none
   ((), r.getD "bad-op")
 
